@@ -940,9 +940,13 @@ def determinism_worker(cases, wid, extra):
                 idirs += ["-I", os.path.join(root, d)]
             mains = list(cfg["mains"])
 
-            def run(order, hashseed, cwd, tag, alone=False):
+            def run(order, hashseed, cwd, tag, alone=False, stale=None):
                 out = os.path.join(root, "o_" + tag)
                 os.makedirs(out)
+                for name, data in (stale or {}).items():
+                    # an output directory that still holds longer files of an earlier run
+                    with open(os.path.join(out, name), "wb") as fh:
+                        fh.write(data + b"\n// left over from an earlier, longer revision\n" * 20)
                 files = [paths[f] if cwd != "d0" else os.path.relpath(paths[f], os.path.join(root, "d0")) for f in order]
                 argv = files + idirs + ["--python_out", out, "--cpp_out", out, "--cpp_full_out", out, "--prophy_out", out]
                 rc, text = CL.run_cli(argv, cwd=os.path.join(root, cwd), env={"PYTHONHASHSEED": hashseed})
@@ -963,7 +967,7 @@ def determinism_worker(cases, wid, extra):
                 for k, p in enumerate(perms[:3]):
                     variants.append((p, str(k + 3), "elsewhere" if k % 2 else "d0", "order%d" % k))
             for order, hs, cwd, tag in variants:
-                rc, text, snap = run(order, hs, cwd, tag)
+                rc, text, snap = run(order, hs, cwd, tag, stale=ref if tag == "repeat" else None)
                 if rc != 0:
                     res["fails"].append(dict(basef, what="run %s (order %r, PYTHONHASHSEED=%s, cwd=%s) failed: %s"
                                              % (tag, order, hs, cwd, text[-300:])))
@@ -1065,7 +1069,7 @@ def c20(tier, replay):
     rep.assumptions = [
         "configurations (file placement, -I list, include lists, command-line order) are those of spec/FileProc.tla whose "
         "model-checked behaviour reports no error; ResolutionDeclarative is the design-level form of order independence",
-        "each configuration is compiled by `python -m prophyc` subprocesses with all four back-ends: twice identically, "
+        "each configuration is compiled by `python -m prophyc` subprocesses with all four back-ends: twice identically (the second time into a directory that still holds longer files of the same names), "
         "with PYTHONHASHSEED 1, 2 and random, from another working directory with absolute paths, with the command-line "
         "order permuted, and each input alone; all generated files are compared byte for byte",
         "plus triples of independent random schemas that reuse the same type names for different definitions, compiled "
